@@ -7,6 +7,7 @@
 #include "gs_ref.h"
 #include "gs_rx.h"
 #include <algorithm>
+#include <new>
 #include <string>
 
 using namespace gs;
@@ -14,10 +15,10 @@ typedef std::vector<uint8_t> Bytes;
 static inline bool same(const uint8_t *a, const uint8_t *b, size_t n) { return n == 0 || memcmp(a, b, n) == 0; }
 
 // ---------------------------------------------------------------- per-case local counters (flushed once per case)
-static uint64_t g_status[NCODEC][9];
+static uint64_t g_status[NCODEC_ALL][9];
 static void flush_status()
 {
-    for (int k = 0; k < NCODEC; k++)
+    for (int k = 0; k < NCODEC_ALL; k++)
         for (int s = 0; s < 9; s++)
             if (g_status[k][s])
             {
@@ -48,14 +49,68 @@ struct Job
     const char *icls;
     std::string key(const char *clause) const
     {
-        return std::string("C04:") + clause + ":" + CODEC_NAME[k] + ":" + form + ":" + icls;
+        return std::string(key_prefix(k)) + "C04:" + clause + ":" + CODEC_NAME[k] + ":" + form + ":" + icls;
     }
     std::string witness(const Bytes &frame) const
     {
-        return "codec=" + std::string(CODEC_NAME[k]) + " form=" + form + " n=" + std::to_string(p->size()) + " payload=" +
+        std::string alpha;
+        if (k == CUSTOM)
+        {
+            const Alpha &a = ALPHA[CUSTOM];
+            const uint8_t v[6] = {a.START, a.STOP, a.STUB, a.C_START, a.C_STOP, a.C_STUB};
+            alpha = " alphabet(START,STOP,STUB,codes)=" + vf::hex(v, 6);
+        }
+        return "codec=" + std::string(CODEC_NAME[k]) + alpha + " form=" + form + " n=" + std::to_string(p->size()) + " payload=" +
                vf::hex(p->data(), p->size(), 48) + " frame=" + vf::hex(frame.data(), frame.size(), 100);
     }
 };
+
+// ---------------------------------------------------------------- where the context / receiver objects live
+// The statement quantifies over payloads and codecs, not over where the caller keeps its gstuff_context or whether
+// a receiver object is fresh; state carried between calls (caches keyed on an address, leftovers of the previous
+// packet) must not change any frame.  The `interleave` suite varies these within one history.
+enum CtxMode
+{
+    CM_LONGLIVED = 0,    // one const object per alphabet for the whole process
+    CM_INPLACE = 1,      // one object, re-assigned in place before each encode
+    CM_SAME_STORAGE = 2, // a new object constructed in the same storage each time
+    CM_TEMPORARY = 3     // a by-value temporary in the frame of one helper function
+};
+static int g_ctxmode = CM_LONGLIVED;
+static gstuff_context LONGLIVED[4] = {gstuff_context(), gstuff_context_v0(), gstuff_context(), gstuff_context()}; // [CUSTOM] set per case
+static gstuff_context g_inplace;
+alignas(gstuff_context) static unsigned char g_slot[sizeof(gstuff_context)];
+template <class F> __attribute__((noinline)) static long call_with_temporary(Codec k, F &f) { return f(ctx_of(k)); }
+template <class F> static long with_ctx(Codec k, F f)
+{
+    switch (g_ctxmode)
+    {
+    case CM_INPLACE:
+        g_inplace = ctx_of(k);
+        return f(g_inplace);
+    case CM_SAME_STORAGE:
+    {
+        gstuff_context *c = new (g_slot) gstuff_context(ctx_of(k));
+        return f(*c);
+    }
+    case CM_TEMPORARY:
+        return call_with_temporary(k, f);
+    }
+    return f(LONGLIVED[k]);
+}
+enum RxMode
+{
+    RM_FRESH = 0,   // a new receiver object per frame
+    RM_REUSED = 1,  // one object per codec, re-initialised with the next buffer after each packet
+    RM_REBOUND = 2  // one configurable receiver object, re-assigned to the other alphabet between packets
+};
+struct RxPool
+{
+    Rx fixed[NCODEC] = {Rx(V1), Rx(V0), Rx(LEGACY)};
+    Rx morph{V1};
+};
+static RxPool *g_pool = nullptr;
+static int g_rxmode = RM_FRESH;
 
 // ---------------------------------------------------------------- the oracle for one produced frame
 static void check_frame(const Job &j, const Bytes &f, unsigned var)
@@ -91,8 +146,26 @@ static void check_frame(const Job &j, const Bytes &f, unsigned var)
     // the real receiver, fed byte by byte; buffer exactly n+2 bytes (n payload + crc + the cap-1 rule) or a bit larger
     int cap = (int)n + 2 + ((var & 1) ? (int)(var >> 4) % 7 : 0);
     vf::Exact buf(nullptr, (size_t)cap, (var >> 1) % 3, (var & 8) != 0);
-    Rx rx(j.k);
-    rx.init(buf.p, cap);
+    Rx fresh(j.k);
+    Rx *rxp = &fresh;
+    if (g_pool && g_rxmode == RM_REUSED && j.k < NCODEC)
+        rxp = &g_pool->fixed[j.k];
+    else if (g_pool && g_rxmode == RM_REBOUND && j.k != LEGACY && j.k < NCODEC)
+    {
+        g_pool->morph.rebind(j.k);
+        rxp = &g_pool->morph;
+    }
+    Rx &rx = *rxp;
+    if (rxp == &fresh)
+        rx.init(buf.p, cap);
+    else
+    {
+        rx.reinit(buf.p, cap);
+        if (g_rxmode == RM_REUSED)
+            VF_OK("receiver object reused for the next packet with another buffer");
+        else
+            VF_OK("receiver object re-assigned to another alphabet between packets");
+    }
     for (size_t i = 0; i < f.size(); i++)
     {
         int st = rx.put(f[i]);
@@ -157,7 +230,7 @@ static Bytes enc_ptr(Codec k, const Bytes &p, unsigned var)
     if (k == LEGACY)
         r = lg_encode(in.c(), (int)n, out.c());
     else
-        r = gstuffing(in.cc(), n, out.c(), ctx_of(k));
+        r = with_ctx(k, [&](const gstuff_context &cx) { return (long)gstuffing(in.cc(), n, out.c(), cx); });
     Bytes f = take(j, out, r, cap);
     check_frame(j, f, var);
     return f;
@@ -168,7 +241,11 @@ static Bytes enc_vec(Codec k, const Bytes &p, unsigned var)
     Job j{k, "gstuffing(vector)", &p, input_class(ALPHA[k], p)};
     tag(j);
     vf::Exact in(p.data(), p.size(), var % 4, (var & 4) != 0);
-    std::vector<uint8_t> f = gstuffing(igris::buffer((const void *)in.p, p.size()), ctx_of(k));
+    std::vector<uint8_t> f;
+    with_ctx(k, [&](const gstuff_context &cx) {
+        f = gstuffing(igris::buffer((const void *)in.p, p.size()), cx);
+        return 0L;
+    });
     VF_OK("self-sizing encoder ran under ASan");
     check_frame(j, f, var);
     return f;
@@ -190,13 +267,16 @@ static Bytes enc_iov(Codec k, const Bytes &p, const std::vector<Piece> &pieces, 
     Bytes f;
     if (vec_form)
     {
-        f = gstuffing_v(iv, np, ctx_of(k));
+        with_ctx(k, [&](const gstuff_context &cx) {
+            f = gstuffing_v(iv, np, cx);
+            return 0L;
+        });
         VF_OK("self-sizing encoder ran under ASan");
     }
     else
     {
         vf::Exact out(nullptr, cap, (var >> 3) % 4, (var & 32) != 0);
-        long r = gstuffing_v(iv, np, out.c(), ctx_of(k));
+        long r = with_ctx(k, [&](const gstuff_context &cx) { return (long)gstuffing_v(iv, np, out.c(), cx); });
         f = take(j, out, r, cap);
     }
     if (same_as && f == *same_as)
@@ -432,6 +512,190 @@ static void part_run(uint64_t idx)
 }
 VF_SUITE(partitions, part_count, part_run)
 
+// (5) long payloads around and beyond 2^16 ("any length ... a receiver with a large enough buffer")
+static std::vector<size_t> long_lengths()
+{
+    std::vector<size_t> v{65000, 65534, 65535, 65536, 65600, 70000, 200000, 400000};
+    if (vf::thorough())
+    {
+        for (size_t x : {65533, 65537, 65538, 131070, 131071, 131072, 131073, 140000, 262144, 1 << 20})
+            v.push_back(x);
+        vf::Rng r(vf::seed(), 0xC04E, 0);
+        for (int i = 0; i < 22; i++)
+            v.push_back(60000 + r.below(90000));
+    }
+    return v;
+}
+static uint64_t long_count() { return NCODEC * 2 * long_lengths().size(); }
+static void long_run(uint64_t idx)
+{
+    Codec k = (Codec)(idx % NCODEC);
+    bool biased = (idx / NCODEC) % 2;
+    size_t n = long_lengths()[idx / (NCODEC * 2)];
+    vf::Rng r(vf::seed(), 0xC04F, idx);
+    Bytes al = payload_alphabet(k);
+    Bytes p(n);
+    for (auto &b : p)
+        b = biased ? (r.chance(1, 3) ? al[r.below(6 < al.size() ? 6 : al.size())] : (uint8_t)r.next()) : (uint8_t)('a' + r.below(26));
+    if (vf::verbose())
+        printf("  codec=%s n=%zu %s payload=%s...\n", CODEC_NAME[k], n, biased ? "marker-biased" : "plain", vf::hex(p.data(), n, 32).c_str());
+    // var even: receive buffer exactly n+2; var odd: a few bytes more
+    Bytes f0 = enc_ptr(k, p, 0);
+    enc_ptr(k, p, 0x31);
+    if (k != LEGACY)
+    {
+        enc_vec(k, p, 2);
+        std::vector<Piece> pc;
+        size_t pos = 0;
+        for (int i = 0; i < 3 && pos < n; i++)
+        {
+            size_t len = r.below(n - pos + 1);
+            pc.push_back(Piece{pos, len, false});
+            pos += len;
+        }
+        pc.push_back(Piece{pos, n - pos, false});
+        enc_iov(k, p, pc, false, (unsigned)r.next(), &f0);
+        enc_iov(k, p, pc, true, (unsigned)r.next(), &f0);
+    }
+    VF_OK("payload of 65000 bytes or more through every encoder form and the receiver");
+    if (n >= 65535)
+        VF_OK("receive buffer of 64 KiB or more");
+    vf::count_case(vf::hash_bytes(p.data(), n, vf::mix(k, 0xC04)), true);
+    if (vf::want_sample() && n == 65536)
+        vf::sample("long: codec=%s n=%zu %s, forms ptr/vector/iovec, receiver cap n+2 and n+5", CODEC_NAME[k], n, biased ? "marker-biased" : "plain");
+    flush_status();
+}
+VF_SUITE(longpay, long_count, long_run)
+
+// (6) one history that interleaves alphabets, codecs, encoder forms, context placements and receiver objects
+static uint64_t inter_count() { return vf::thorough() ? 6000 : 300; }
+static void inter_run(uint64_t idx)
+{
+    vf::Rng r(vf::seed(), 0xC04D, idx);
+    RxPool pool;
+    struct Guard
+    {
+        ~Guard()
+        {
+            g_pool = nullptr;
+            g_ctxmode = CM_LONGLIVED;
+            g_rxmode = RM_FRESH;
+        }
+    } guard;
+    g_pool = &pool;
+    // union of both alphabets: under a stale alphabet the other one's markers go out unescaped
+    static const uint8_t HOT[] = {0xA8, 0xB2, 0xC5, 0x8A, 0x2B, 0x5C, 0xAC, 0xAD, 0xAE, 0xAF, 0x00, 0xFF, 'a'};
+    static const char *const CMN[] = {"long-lived", "in-place", "same-storage", "temporary"};
+    Codec prev = r.chance(1, 2) ? V0 : V1;
+    int steps = 40 + (int)r.below(40);
+    for (int s = 0; s < steps; s++)
+    {
+        Codec k = r.chance(1, 6) ? LEGACY : r.chance(4, 5) ? (prev == V1 ? V0 : V1) : prev;
+        if (k != LEGACY)
+            prev = k;
+        size_t n = r.below(14);
+        Bytes p(n);
+        for (auto &b : p)
+            b = r.chance(3, 4) ? HOT[r.below(sizeof HOT)] : (uint8_t)r.next();
+        if (r.chance(1, 3))
+            g_ctxmode = (int)r.below(4);
+        if (r.chance(1, 2))
+            g_rxmode = (int)r.below(3);
+        int form = k == LEGACY ? 0 : (int)r.below(4);
+        unsigned var = (unsigned)r.next();
+        if (vf::verbose())
+            printf("  step %d codec=%s ctx=%s rx=%d form=%d payload=%s\n", s, CODEC_NAME[k], CMN[g_ctxmode], g_rxmode, form, vf::hex(p.data(), n).c_str());
+        if (form == 0)
+            enc_ptr(k, p, var);
+        else if (form == 1)
+            enc_vec(k, p, var);
+        else
+            enc_iov(k, p, random_partition(r, n), form == 3, var, nullptr);
+        if (k != LEGACY)
+        {
+            switch (g_ctxmode)
+            {
+            case CM_LONGLIVED: VF_OK("encode with a long-lived context object"); break;
+            case CM_INPLACE: VF_OK("encode with a context object re-assigned in place"); break;
+            case CM_SAME_STORAGE: VF_OK("encode with a new context object in the same storage"); break;
+            default: VF_OK("encode with a by-value temporary context"); break;
+            }
+        }
+        vf::count_case(vf::hash_bytes(p.data(), n, vf::mix(vf::mix(k, g_ctxmode), vf::mix(g_rxmode, form))), n >= 1);
+    }
+    VF_OK("interleaved history of alphabets / codecs / context placements / receivers");
+    if (vf::want_sample())
+        vf::sample("interleave: %d steps alternating v1/v0/legacy, context in {long-lived,in-place,same-storage,temporary}, receiver in {fresh,reused,re-assigned}", steps);
+    flush_status();
+}
+VF_SUITE(interleave, inter_count, inter_run)
+
+// (7) EXTRA configuration dimension, beyond the letter of the statement ("both marker alphabets"): caller-defined
+// gstuff_context values.  Reduced workload; keys are prefixed "custom-alphabet:".
+static uint64_t custom_count() { return 2 * (uint64_t)(3 * 17 + (vf::thorough() ? 400 : 20)); }
+static void custom_run(uint64_t idx)
+{
+    bool shared = idx % 2;
+    Alpha a = custom_alpha(vf::seed(), idx / 2, shared);
+    set_custom(a);
+    LONGLIVED[CUSTOM] = ctx_of(CUSTOM);
+    const Codec k = CUSTOM;
+    vf::Rng r(vf::seed(), 0xC04C05, idx);
+    Bytes al = payload_alphabet(k);
+    if (vf::verbose())
+        printf("  custom alphabet START=%02x STOP=%02x STUB=%02x codes=%02x %02x %02x\n", a.START, a.STOP, a.STUB, a.C_START, a.C_STOP, a.C_STUB);
+    // all payloads of length <= 3 over the marker/code alphabet, every form, every partition
+    all_forms(k, Bytes(), 0, true, 0, nullptr);
+    uint64_t A = al.size(), cnt = A;
+    for (int len = 1; len <= 3; len++, cnt *= A)
+        for (uint64_t t = 0; t < cnt; t++)
+        {
+            Bytes p;
+            uint64_t x = t;
+            for (int i = 0; i < len; i++, x /= A)
+                p.push_back(al[x % A]);
+            all_forms(k, p, (unsigned)(t * 3 + len), true, 0, nullptr);
+        }
+    // CRC equal to each marker / code
+    for (uint8_t m : {a.START, a.STOP, a.STUB, a.C_START, a.C_STOP, a.C_STUB})
+    {
+        Bytes p;
+        for (int i = (int)r.below(4); i--;)
+            p.push_back(r.chance(1, 2) ? al[r.below(al.size())] : (uint8_t)r.next());
+        p.push_back(0);
+        for (int b = 0; b < 256; b++)
+        {
+            p.back() = (uint8_t)b;
+            if (crc8(p.data(), p.size()) == m)
+                break;
+        }
+        all_forms(k, p, (unsigned)r.next(), true, 1, &r);
+    }
+    // a few random payloads, with the context object in every placement
+    for (int i = 0; i < 8; i++)
+    {
+        size_t n = r.below(65);
+        Bytes p(n);
+        for (auto &b : p)
+            b = r.chance(1, 2) ? al[r.below(al.size())] : (uint8_t)r.next();
+        g_ctxmode = i % 4;
+        all_forms(k, p, (unsigned)r.next(), false, 1, &r);
+    }
+    g_ctxmode = CM_LONGLIVED;
+    VF_OK("custom-alphabet: round trip over a caller-defined gstuff_context (extra dimension)");
+    if (shared)
+        VF_OK("custom-alphabet: START == STOP variant");
+    else
+        VF_OK("custom-alphabet: START != STOP variant");
+    if (a.START == 0xFF || a.STOP == 0xFF || a.STUB == 0xFF)
+        VF_OK("custom-alphabet: 0xFF as a marker");
+    if (vf::want_sample() && idx == 17)
+        vf::sample("custom: alphabet START=%02x STOP=%02x STUB=%02x codes=%02x,%02x,%02x; all payloads <= 3 over it, CRC==marker payloads, random payloads", a.START,
+                   a.STOP, a.STUB, a.C_START, a.C_STOP, a.C_STUB);
+    flush_status();
+}
+VF_SUITE(custom, custom_count, custom_run)
+
 // calibration of the reference alphabets against what the library ships
 static uint64_t calib_count() { return 1; }
 static void calib_run(uint64_t)
@@ -463,6 +727,12 @@ extern "C" void vf_setup()
           "legacy receiver: line == payload ++ CRC-8", "self-sizing encoder ran under ASan", "iovec partition (enumerated)",
           "iovec partition (random, with empty pieces)", "payload whose CRC-8 equals START/STOP/STUB", "payload whose CRC-8 equals an escape code",
           "all-marker payload (worst-case expansion)", "all 2^(n-1) partitions of a 5..8 byte payload",
-          "reference alphabets == shipped gstuff_context values", "status:v1:NEWPACKAGE", "status:v0:NEWPACKAGE", "status:legacy:NEWPACKAGE"})
+          "reference alphabets == shipped gstuff_context values", "payload of 65000 bytes or more through every encoder form and the receiver",
+          "receive buffer of 64 KiB or more", "interleaved history of alphabets / codecs / context placements / receivers",
+          "encode with a long-lived context object", "encode with a context object re-assigned in place",
+          "encode with a new context object in the same storage", "encode with a by-value temporary context",
+          "receiver object reused for the next packet with another buffer", "receiver object re-assigned to another alphabet between packets",
+          "custom-alphabet: round trip over a caller-defined gstuff_context (extra dimension)", "custom-alphabet: START == STOP variant",
+          "custom-alphabet: START != STOP variant", "custom-alphabet: 0xFF as a marker", "status:custom:NEWPACKAGE", "status:v1:NEWPACKAGE", "status:v0:NEWPACKAGE", "status:legacy:NEWPACKAGE"})
         vf::require(c);
 }
